@@ -287,6 +287,14 @@ class FlowIRManifestKeyIsAbsolutePath(FlowIRManifestSyntaxException):
             f'Manifest target "{target}" is invalid because it is an absolute path')
 
 
+class FlowIRManifestKeyOutsideInstance(FlowIRManifestSyntaxException):
+    def __init__(self, target: str):
+        self.target = target
+
+        super(FlowIRManifestKeyOutsideInstance, self).__init__(
+            f'Manifest target "{target}" is invalid because it points outside the instance directory')
+
+
 class FlowIRManifestSourceInvalidReferenceMethod(FlowIRManifestSyntaxException):
     def __init__(self, target: str, source: str):
         self.target = target
